@@ -184,22 +184,24 @@ def check_symbols(run, lst, ob):
     by_order = {v: k for k, v in order.items()}
 
     def slid_onto_proxy(tok):
-        """label of a wholly deleted block whose next block(s) are deleted,
-        the first surviving or proxy-deleted one being proxy-deleted"""
+        """label of a wholly deleted block followed (through further wholly
+        deleted or proxy-deleted blocks) by a proxy-deleted block: the label
+        may legitimately end on any of those proxies"""
         if tok.bid is None or tok.bid not in lst.deleted_blocks:
             return None
         si, k = order[tok.bid]
+        found = None
         while True:
             k += 1
             nb = by_order.get((si, k))
             if nb is None:
-                return None
+                return found
             if nb in proxy_blocks:
-                return nb
+                found = nb
+                continue
             if nb in lst.deleted_blocks:
                 continue
-            return None
-
+            return found
 
     # geometry helpers for mechanism keys
     tok_seq = {}
@@ -295,7 +297,6 @@ def check_symbols(run, lst, ob):
             nb = slid_onto_proxy(tok) if tok is not None else None
             if nb is not None and got[0] == "proxy":
                 ctr["dontcare5"] += 1
-                proxies_seen.setdefault(nb, set()).add(got[1])
                 continue
             rel = relation(tok, exp, got)
             viol.append({
